@@ -838,9 +838,15 @@ class Interp(object):
         if isinstance(st, (ast.Import, ast.ImportFrom)):
             self.exec_import(st, env)
         elif isinstance(st, ast.FunctionDef):
-            env[st.name] = self.make_closure(st, env, modname, st.name)
+            try:
+                env[st.name] = self.make_closure(st, env, modname, st.name)
+            except (Unsupported, PyExc) as e:
+                env[st.name] = Poison('definition of %s not modelled: %s' % (st.name, e))
         elif isinstance(st, ast.ClassDef):
-            env[st.name] = self.make_class(st, env, modname)
+            try:
+                env[st.name] = self.make_class(st, env, modname)
+            except (Unsupported, PyExc) as e:
+                env[st.name] = Poison('definition of class %s not modelled: %s' % (st.name, e))
         elif isinstance(st, (ast.Assign, ast.Expr, ast.If, ast.Try)):
             try:
                 self.exec_stmt(st, env)
@@ -863,7 +869,10 @@ class Interp(object):
         else:
             mod = st.module or ''
             for a in st.names:
-                env[a.asname or a.name] = self.getattr_(ModuleObj(mod), a.name)
+                try:
+                    env[a.asname or a.name] = self.getattr_(ModuleObj(mod), a.name)
+                except Unsupported as e:
+                    env[a.asname or a.name] = Poison('import not modelled: %s' % e)
 
     def make_closure(self, node, env, modname, qualname, cls=None):
         defaults = [self.eval(d, env) for d in node.args.defaults]
@@ -882,7 +891,12 @@ class Interp(object):
         return c
 
     def make_class(self, node, env, modname):
-        bases = [self.eval(b, env) for b in node.bases]
+        bases = []
+        for b in node.bases:
+            try:
+                bases.append(self.eval(b, env))
+            except Unsupported:
+                bases.append(Opaque('libclass', ast.unparse(b)))     # a library base class: its methods are not modelled
         for b in bases:
             if isinstance(b, ExcClass):
                 ec = ExcClass(node.name, [b])
@@ -891,9 +905,15 @@ class Interp(object):
         c = ClassObj(node.name, node, modname, bases)
         for st in loader.strip_docstring(node.body):
             if isinstance(st, ast.FunctionDef):
-                c.members[st.name] = self.make_closure(st, env, modname, node.name + '.' + st.name, cls=c)
+                try:
+                    c.members[st.name] = self.make_closure(st, env, modname, node.name + '.' + st.name, cls=c)
+                except (Unsupported, PyExc) as e:
+                    c.members[st.name] = Poison('method %s not modelled: %s' % (st.name, e))
             elif isinstance(st, ast.Assign) and len(st.targets) == 1 and isinstance(st.targets[0], ast.Name):
-                c.members[st.targets[0].id] = self.eval(st.value, env)
+                try:
+                    c.members[st.targets[0].id] = self.eval(st.value, env)
+                except Unsupported as e:
+                    c.members[st.targets[0].id] = Poison('class attribute not modelled: %s' % e)
             elif isinstance(st, ast.Pass):
                 pass
             else:
